@@ -22,6 +22,7 @@ void execute_c01(const Plan &plan, Verdict &v) {
     io.torture = true;
     io.tb = (int) clampl(plan.k("tb", 17), 0, 40);
     io.variant = (int) clampl(plan.k("variant", 0), 0, 1000);
+    io.pad_before = (int) clampl(plan.k("pad_table", 0), 0, 400);
     g_alloc = AllocCtl();
     g_alloc.fail_all = plan.k("allocfail_all", 0) != 0;
     uint64_t total_bytes = 0;
@@ -208,6 +209,7 @@ void generate_c01(Rng &r, const GenOpts &g, Plan &p) {
     if (r.chance(1, 5)) p.knob["wr_mode"] = r.range(1, 3);
     if (r.chance(1, 10)) p.knob["flush_err"] = 1;
     if (r.chance(1, 12)) p.knob["no_units"] = 1;
+    if (r.chance(1, 60)) p.knob["pad_table"] = r.chance(1, 2) ? r.range(200, 300) : r.range(1, 400);
     if (r.chance(1, 6)) {
         // identification strings of the application's choosing: the response to *IDN? is 3 commas plus the four fields;
         // totals around the 72 characters IEEE 488.2 names as the limit, and far beyond
